@@ -550,12 +550,14 @@ def replay(ctx, payload):
 
 LEVEL_TEXT = ('Machine-checked proof (Lean 4). split_path: the line-by-line model equals the declarative contract for every '
               'path, minsegs >= 1, maxsegs and flag (split_path_eq_spec), with corollaries: result length = maxsegs, leading '
-              'segments preserved and re-joinable to the path, exact ValueError cases; over a verified model of '
-              'str.split(sep, maxsplit) / join. split_by_commas: for every non-empty item list without TAB/LF/CR (superset '
-              'of printable ASCII) splitting the comma-joined, quoted-if-needed encoding returns the items '
-              '(split_commas_roundtrip), and unbalanced quotes, text after a closing quote, a quote after a bare word and '
-              'empty unquoted items are rejected (split_commas_rejects_*), over a hand model of the two pyparsing elements. '
-              'All clauses full strength. Model tied to the code by exhaustive small-scope plus random correspondence.')
+              'segments preserved and re-joinable to the path (one trailing slash tolerated), exact ValueError cases, no '
+              'other exception; over a verified model of str.split(sep, maxsplit) / join. split_by_commas: for every '
+              'non-empty item list without TAB/LF/CR (superset of printable ASCII) splitting the comma-joined, '
+              'quoted-if-needed (or any admissible) encoding returns the items (split_commas_roundtrip*), and behind any '
+              'well-formed prefix an unclosed quote, text after a closing quote or after a bare word, and an empty unquoted '
+              'item are rejected for arbitrary surrounding text (split_commas_rejects*), over a hand model of the two '
+              'pyparsing elements. All clauses full strength; no _partial theorem. Model tied to the code by exhaustive '
+              'small-scope plus random correspondence.')
 LEVEL_NOTE = ('Trusted: Lean kernel; axioms propext/Quot.sound/Classical.choice only (audited each run); the hand models of '
               'str.split/join/expandtabs and of the pyparsing grammar (QuotedString regex + un-quoting pass, Word, '
               'delimitedList, whitespace skipping) and the correspondence harness. Negative minsegs/maxsegs not modelled.')
